@@ -498,6 +498,10 @@ def _w(via, state, ops):
 
 # repaired in /repo (known_findings.json lists them under `fixed`): no longer tolerated; the witnesses stay as regression inputs
 FORMER = [
+    {"property": "C13", "id": "C13-service-uri-not-string",
+     "what": "Service.ProcessRequest called as a library function with a non-string \"uri\" asserts u.(string)",
+     "class": "panic at site (Service.ProcessRequest, u.(string))", "site": "Service.ProcessRequest",
+     "witness": _w("http", "indexed", [{"op": "svc", "m": {"uri": 5}}])},
     {"property": "C13", "id": "C13-getrulepatterns-panic",
      "what": "AddFact of a fact whose rule body has a non-map `when` (or `when.pattern`) panics in GetRulePatterns (unchecked type assertion); "
              "inside IndexedState.Add the write lock is released without defer, so the location blocks every later request",
@@ -541,10 +545,6 @@ PROPOSED = [
      "class": "no panic: the canary event answers with an error that the model predicts (FindCachedRules -> RuleFromMap fails)",
      "site": "FindCachedRules",
      "witness": _w("core", "indexed", [{"op": "addFact", "id": "m", "fact": {"rule": {"when": {}}}}])},
-    {"property": "C13", "id": "C13-service-uri-not-string",
-     "what": "Service.ProcessRequest called as a library function with a non-string \"uri\" asserts u.(string)",
-     "class": "panic at site (Service.ProcessRequest, u.(string))", "site": "Service.ProcessRequest",
-     "witness": _w("http", "indexed", [{"op": "svc", "m": {"uri": 5}}])},
     {"property": "C13", "id": "C13-matcher-nonground-overflow",
      "what": "a stored fact (or an event) containing a string that starts with '?' can bind a pattern variable to itself; the matcher then recurses "
              "without bound (match(binding, fact) with binding == the variable): fatal stack overflow, the process dies (depends on map iteration order)",
